@@ -667,6 +667,14 @@ func (l *lexer) lexToken(tok int) action {
 		}
 		l.bquote = false
 		if l.cmdSubst != 0 && len(l.stack) == 1 {
+			if l.heredoc.exists() {
+				// the command substitution ends before the
+				// here-documents of its last line
+				if h := l.heredoc.pop(l.cancel); h != nil {
+					l.error(h.OpPos, "syntax error: here-document delimited by EOF")
+				}
+				return nil
+			}
 			l.emit(tok)
 			l.stack = nil
 			break
